@@ -21,4 +21,5 @@ for c in m['checks']:
     assert e['violations'] == 0, c['property_id']
 print('manifest + %d evidence files valid' % len(m['checks']))
 PY
+python3 /verif/tools/orphans.py || rc=1
 exit $rc
